@@ -200,6 +200,14 @@ TrimR(s) == IF s # <<>> /\ s[Len(s)] = SP THEN TrimR(SubSeq(s, 1, Len(s) - 1)) E
 \* lexicographic "less than" on code point sequences (dict keys are kept sorted)
 SeqLess(x, y) == V!SeqCmp(x, y) < 0
 
+\* hex / b64 payloads denote bytes; only the canonical spelling (lower-case hex of even length,
+\* padded standard base64) is compared as text -- any other spelling is read but not judged (amb)
+IsB64Char(c) == IsAlnum(c) \/ c \in {43, 47, 61}
+CanonicalPayload(type, p) ==
+    IF type = <<104, 101, 120>> THEN Len(p) % 2 = 0 /\ \A i \in 1..Len(p) : IsDigit(p[i]) \/ p[i] \in 97..102
+    ELSE IF type = <<98, 54, 52>> THEN Len(p) % 4 = 0 /\ \A i \in 1..Len(p) : IsB64Char(p[i])
+    ELSE TRUE
+
 (***************************************************************************)
 (* Machine state.                                                          *)
 (***************************************************************************)
@@ -358,10 +366,12 @@ Step(st, c0) ==
   LET s == s0  c == c0  m == s0.m IN
   CASE m = "docStart" \/ m = "docGap" ->
          IF c = 118 THEN [Mode(Push(s, GridFrame), "verLit") EXCEPT !.n = 1]
-         ELSE IF c = NL /\ m = "docGap" THEN s
+         ELSE IF c = NL /\ (m = "docGap" \/ ~s.strict) THEN s      \* blank lines between (liberal: before) grids
          ELSE Reject(s, "bad_version_header")        \* every grid starts with ver:"..."
-    [] m = "gridStart" ->       \* first character of a nested grid
-         IF c = 118 THEN [Mode(s, "verLit") EXCEPT !.n = 1] ELSE Reject(s, "bad_version_header")
+    [] m = "gridStart" ->       \* first character of a nested grid (liberal: blanks after "<<")
+         IF c = 118 THEN [Mode(s, "verLit") EXCEPT !.n = 1]
+         ELSE IF c = SP /\ ~s.strict THEN s
+         ELSE Reject(s, "bad_version_header")
     [] m = "verLit" ->          \* "ver:" then the version string
          IF s.n < 4 THEN (IF c = <<118, 101, 114, 58>>[s.n + 1] THEN [s EXCEPT !.n = s.n + 1]
                           ELSE Reject(s, "bad_version_header"))
@@ -447,7 +457,7 @@ Step(st, c0) ==
          IF c = DQ THEN [Mode(s, "str") EXCEPT !.buf = <<>>, !.sctx = "xstr"] ELSE Reject(s, "bad_token")
     [] m = "xstrClose" ->
          IF c = RP THEN (IF s.a1 = cBin THEN Deliver(s, <<9, s.buf>>)       \* 3.0 spelling of a Bin
-                         ELSE Deliver(s, <<11, s.a1, s.buf>>))
+                         ELSE Deliver([s EXCEPT !.amb = s.amb \/ ~CanonicalPayload(s.a1, s.buf)], <<11, s.a1, s.buf>>))
          ELSE Reject(s, "bad_token")
     [] m = "afterVal" -> AfterVal(s, c)
     [] m = "metaStart" ->       \* after the blank that follows the version / a grid-meta item
@@ -517,6 +527,7 @@ OpenBrackets(st) == \E i \in 1..Len(st.stk) : st.stk[i].t \in {"list", "dict"} \
 
 Finish(st) ==
     IF ~st.ok THEN st
+    ELSE IF st.cr THEN Reject(st, "truncated")            \* a lone CR at the end of the text
     ELSE IF st.m \in {"docStart", "docGap"} THEN st
     ELSE IF st.m \in {"str", "strEsc", "strHex", "uri", "uriEsc", "uriHex"} THEN Reject(st, "unterminated_text")
     ELSE IF OpenBrackets(st) THEN Reject(st, "unbalanced_bracket")
